@@ -25,6 +25,10 @@ CLAIMS = {
             "note": "float rounding not analysed; window size assumed a positive integer", "technique": T_NF + "; parity case split w=2k / w=2k+1"},
     "C12": {"category": "proof", "text": "exhaustive: 12 sizes x 20 residues map = documented groups, group count, representative in group, alphabet = representatives, one output letter per input letter on every path (length, homomorphism), idempotence, every other size rejected, user alphabet validated for every (key, value-class) pair",
             "note": "trusted: per-letter constant folding of the loop body in lcsa/sym.py; spec/alphabets.json transcribed from webpage.MD", "technique": "static analysis: finite-alphabet partition analysis (constant propagation of the per-letter loop body over the 20 letters and all sizes)"},
+    "C13": {"text": "decides the per-character decision table of the validator over a 264-character universe (letter kept / whitespace dropped / anything else rejected), type check first, upper-casing before validation, blank rejected, object state derived from the normalised word, string branch validates, accessors read the stored word",
+            "note": "CPython semantics of str.upper/isspace/len trusted; characters outside the universe fall in the same three classes because the body tests only membership and isspace()", "technique": "static analysis: finite partition analysis of the loop body + typestate walk over the constructor"},
+    "C14": {"text": "decides the sequence-line character table, the asterisk post-validation table, the line loop's decision table with the header typestate, order-preserving concatenation, file-to-loop-to-result plumbing, and that both constructors' file branches build the object from the parser output",
+            "note": "unknown lines are abstract strings (length atom, two uninterpreted booleans); file reading itself (open/readlines) trusted", "technique": "static analysis: partition analysis + decision tables over abstract strings with exact feasibility"},
 }
 
 PENDING = "check under construction in this session (design in DESIGN.md section 4); not claimed until it runs clean"
